@@ -25,7 +25,7 @@ Proof. intros c b. reflexivity. Qed.
 Lemma wit_repo_blind : repo_blind wit_load.
 Proof. intros c i v r. destruct i; split; reflexivity. Qed.
 
-Definition wit_repo_cfg : cfg := {| c_gram := 1; c_memo := true; c_debug := false; c_base := true; c_classes := [8; 9]; c_repo := true; c_opts := 3 |}.
+Definition wit_repo_cfg : cfg := {| c_gram := 1; c_memo := true; c_debug := false; c_base := true; c_classes := [8; 9]; c_repo := true; c_root_user := true; c_opts := 3 |}.
 Definition wit_gram (id : nat) : nat := match id with 7 => 0 | _ => 1 end.
 Definition wit_ops : list op := [New 0 wit_cfg; Load 0 0; New 1 wit_repo_cfg; Load 1 5; Load 0 1; New 0 wit_cfg_memo; Load 1 5; Load 0 2].
 
